@@ -105,6 +105,10 @@ def parse_formula(f):
                 m = re.match(r"[A-Z][a-z_]*", s[i:])
                 el = m.group(0)
                 i += m.end()
+                # a valence annotation, as in the mole-balance formulas 'S(-2)5' or 'Fe(+3)2': the element in that redox state, not a group
+                mv = re.match(r"\(([+-]?\d+(?:\.\d+)?)\)", s[i:])
+                if mv:
+                    i += mv.end()
                 m = re.match(NUM, s[i:])
                 n = 1.0
                 if m and not m.group(0).startswith(("+", "-")):
